@@ -1,0 +1,74 @@
+//! Verification hooks (cargo feature `verif`, off by default).
+//!
+//! * `text`: handler of the request `$/verif/text`,
+//!   which returns the text the document broker currently holds for a document.
+//! * `std`: shadows the `std` crate inside `server::phases`,
+//!   so that `std::process::exit` can be intercepted per thread.
+//!   Without an installed handler it is the real `std::process::exit`.
+//! * `doc_updated`: forwards every document the broker computed to an observer,
+//!   if one is installed for the current thread.
+#![allow(dead_code)]
+use crate::document::DocumentRequest;
+use color_eyre::eyre::{Context, Result};
+use lsp_types::{TextDocumentIdentifier, Url};
+use spl_frontend::AnalyzedSource;
+use std::cell::RefCell;
+use tokio::sync::{mpsc::Sender, oneshot};
+
+pub const TEXT_METHOD: &str = "$/verif/text";
+
+pub async fn text(
+    doctx: Sender<DocumentRequest>,
+    params: TextDocumentIdentifier,
+) -> Result<Option<String>> {
+    let (tx, rx) = oneshot::channel();
+    doctx
+        .send(DocumentRequest::GetInfo(params.uri, tx))
+        .await
+        .wrap_err("Cannot send document request")?;
+    let doc = rx.await.wrap_err("Cannot recieve document request")?;
+    Ok(doc.map(|doc| doc.text))
+}
+
+pub type ExitHandler = Box<dyn Fn(i32)>;
+pub type DocObserver = Box<dyn FnMut(&Url, &AnalyzedSource)>;
+
+thread_local! {
+    static EXIT_HANDLER: RefCell<Option<ExitHandler>> = const { RefCell::new(None) };
+    static DOC_OBSERVER: RefCell<Option<DocObserver>> = const { RefCell::new(None) };
+}
+
+/// Installs (or removes) the exit handler of the current thread.
+/// The handler is expected to diverge (e.g. by unwinding).
+pub fn set_exit_handler(handler: Option<ExitHandler>) {
+    EXIT_HANDLER.with(|cell| *cell.borrow_mut() = handler);
+}
+
+/// Installs (or removes) the document observer of the current thread.
+pub fn set_doc_observer(observer: Option<DocObserver>) {
+    DOC_OBSERVER.with(|cell| *cell.borrow_mut() = observer);
+}
+
+pub fn doc_updated(uri: &Url, doc: &AnalyzedSource) {
+    DOC_OBSERVER.with(|cell| {
+        if let Some(observer) = cell.borrow_mut().as_mut() {
+            observer(uri, doc);
+        }
+    });
+}
+
+pub mod std {
+    pub use ::std::*;
+    pub mod process {
+        #[allow(unused_imports)]
+        pub use ::std::process::*;
+        pub fn exit(code: i32) -> ! {
+            super::super::EXIT_HANDLER.with(|cell| {
+                if let Some(handler) = cell.borrow().as_ref() {
+                    handler(code);
+                }
+            });
+            ::std::process::exit(code)
+        }
+    }
+}
